@@ -126,9 +126,10 @@ def scenario_from(harness, vals):
     if not mi or not ms:
         return None
     names = mi.group(1).split(",")
-    if len(vals) < len(names):
+    if not vals:
         return None
-    env = dict(zip(names, vals))
+    # (a counterexample ends at the failed check: inputs chosen after it do not appear; they default to 0)
+    env = dict(zip(names, list(vals) + [0] * (len(names) - len(vals))))
     try:
         return ms.group(1).format(**env).split(), env
     except Exception:
